@@ -273,7 +273,7 @@ Definition c13_outside_urls : list string := (
    model/Untrusted.v does not transcribe (its parse_key answers it with the
    fallback key): the PRF-based deriver key, which nests a key TEMPLATE that
    goes through protoserialization.ParseParameters, i.e. the parameters parsers
-   of every key type.  It IS transcribed, with all 30 parameters parsers, in
+   of every key type.  It IS transcribed, with all 29 parameters parsers, in
    model/UntrustedParams.v (parse_deriver, parse_params), which C14 runs; this
    list is kept because model/Secrets.v (C13) is stated over model/Untrusted.v
    and decides keysets containing the type by its direct check only.  (The
